@@ -3,6 +3,9 @@ package main
 import (
 	"context"
 	"fmt"
+	"runtime"
+	"sort"
+	"strings"
 	"sync/atomic"
 	"time"
 
@@ -36,6 +39,11 @@ type lifeWorld struct {
 	stopSent        atomic.Bool // the stop routine's result was handed over (hook modules.ctrlfn.sent)
 	timeoutSeen     atomic.Bool // modules.stop.timeout fired for the subject
 	lingerUndecided atomic.Bool
+
+	// failure-update notify function (spec.Notify)
+	notifyCalls atomic.Int64
+	readSeq     atomic.Int64 // progress of the reading notifier
+	reading     atomic.Value // string: module whose state is being read right now
 }
 
 // startItem is a healthy managed item launched by the start routine before it panics;
@@ -219,12 +227,15 @@ func runLifeChild(sp caseSpec, dir string) {
 	if sp.Linger {
 		lw.setupLinger()
 	}
+	if sp.Notify != "" {
+		modules.SetFailureUpdateNotifyFunc(lw.failureNotifier)
+	}
 
 	taskName := lw.phase + " module"
 	taskOK := func(s string) bool { return s == taskName }
 
 	w.log.Rec("call", "driver", "Start", nil)
-	startErr := modules.Start()
+	startErr := lw.guard("Start", modules.Start)
 	w.log.Rec("ret", "driver", "Start", map[string]any{"err": errText(startErr)})
 	w.fact("start_err", errText(startErr))
 
@@ -254,7 +265,7 @@ func runLifeChild(sp caseSpec, dir string) {
 		}
 		lw.mods["subject"].Enable()
 		w.log.Rec("call", "driver", "ManageModules", nil)
-		err := modules.ManageModules()
+		err := lw.guard("ManageModules", modules.ManageModules)
 		w.log.Rec("ret", "driver", "ManageModules", map[string]any{"err": errText(err)})
 		w.fact("manage_err", errText(err))
 		lw.raised(err)
@@ -299,7 +310,7 @@ func runLifeChild(sp caseSpec, dir string) {
 		lw.mods["top"].Disable()
 		lw.mods["subject"].Disable()
 		w.log.Rec("call", "driver", "ManageModules", nil)
-		err := modules.ManageModules()
+		err := lw.guard("ManageModules", modules.ManageModules)
 		w.log.Rec("ret", "driver", "ManageModules", map[string]any{"err": errText(err)})
 		w.fact("manage_err", errText(err))
 		lw.quiesce()
@@ -323,7 +334,7 @@ func runLifeChild(sp caseSpec, dir string) {
 		w.check("stop", sp.Kind, sp.Value, st == "offline", "after the management pass the module whose stop routine panicked is "+st+", not offline", nil)
 		// the module can be started and stopped again
 		lw.mods["subject"].Enable()
-		err = modules.ManageModules()
+		err = lw.guard("ManageModules", modules.ManageModules)
 		w.fact("manage_again_err", errText(err))
 		st = lw.status("subject")
 		w.fact("subject_status_restarted", st)
@@ -346,14 +357,17 @@ func runLifeChild(sp caseSpec, dir string) {
 func (lw *lifeWorld) shutdownLife(sp caseSpec, wantErr bool) {
 	w := lw.world
 	w.log.Rec("call", "driver", "Shutdown", nil)
+	if !lw.spec.Linger {
+		w.boundStop()
+	}
 	done := make(chan error, 1)
-	go func() { done <- modules.Shutdown() }()
+	go func() { done <- lw.guard("Shutdown", modules.Shutdown) }()
 	var err error
 	select {
 	case err = <-done:
-	case <-time.After(150 * time.Second):
+	case <-time.After(90 * time.Second):
 		n, g := inflight()
-		w.undecided("stop", sp.Kind, sp.Value, fmt.Sprintf("Shutdown did not return within 150 s (%d goroutines in run paths) %s", n, trunc(g, 300)))
+		w.undecided("stop", sp.Kind, sp.Value, fmt.Sprintf("Shutdown did not return within 90 s (%d goroutines in run paths) %s", n, trunc(g, 300)))
 		return
 	}
 	w.log.Rec("ret", "driver", "Shutdown", map[string]any{"err": errText(err)})
@@ -372,7 +386,7 @@ func (lw *lifeWorld) shutdownLife(sp caseSpec, wantErr bool) {
 	if n := w.stopTimeouts.Load(); n > 0 {
 		s, _ := w.stopTOSnap.Load().(string)
 		if w.stopTOLeak.Load() {
-			w.check("stop", sp.Kind, sp.Value, false, "stopping only completed through the stop timeout; accounting at the timeout: "+s, nil)
+			w.checkHard("stop", sp.Kind, sp.Value, "stopping only completed through the stop timeout; accounting at the timeout: "+s, nil)
 		} else {
 			w.undecided("stop", sp.Kind, sp.Value, "the stop timeout expired although the accounting read zero: "+s)
 		}
@@ -406,7 +420,7 @@ func (lw *lifeWorld) retryAndStop(sp caseSpec) {
 			}
 		}
 		w.log.Rec("call", "driver", "ManageModules(retry)", nil)
-		err := modules.ManageModules()
+		err := lw.guard("ManageModules", modules.ManageModules)
 		w.log.Rec("ret", "driver", "ManageModules(retry)", map[string]any{"err": errText(err)})
 		w.fact("retry_err", errText(err))
 		lw.quiesce()
@@ -528,4 +542,79 @@ func (lw *lifeWorld) afterLinger(sp caseSpec) {
 	zero := snap{}
 	last, ok := w.settle(zero)
 	w.decideSettle(lw.lingerKind(sp), sp.Value, "after the lingering worker was released", zero, last, ok)
+}
+
+// ---------------------------------------------------------------------------------
+// failure-update notify function; hang verdict for the lifecycle calls
+
+// failureNotifier is what a host installs with SetFailureUpdateNotifyFunc (e.g. to
+// publish the module states). The "reads" flavour looks at the state of every module,
+// the failing one included.
+//
+//go:noinline
+func (lw *lifeWorld) failureNotifier(moduleFailure uint8, id, title, msg string) {
+	lw.notifyCalls.Add(1)
+	if lw.spec.Notify != "reads" {
+		return
+	}
+	names := make([]string, 0, len(lw.mods))
+	for n := range lw.mods {
+		names = append(names, n)
+	}
+	sort.Strings(names)
+	for _, n := range names {
+		lw.reading.Store(n)
+		lw.readSeq.Add(1)
+		_, _, _ = lw.mods[n].FailureStatus()
+		_ = lw.mods[n].Status()
+	}
+	lw.reading.Store("*")
+	lw.readSeq.Add(1)
+	_ = modules.GetStatus()
+	lw.reading.Store("")
+	lw.readSeq.Add(1)
+}
+
+// guard runs Start / ManageModules / Shutdown and watches for the structural hang "the
+// notify function, called from within setFailure, is blocked reading module state and
+// makes no progress": then the call can never return. The child ends at once with that
+// verdict (nothing else can be observed in a deadlocked module system).
+func (lw *lifeWorld) guard(call string, fn func() error) error {
+	if lw.spec.Notify != "reads" {
+		return fn()
+	}
+	done := make(chan error, 1)
+	go func() { done <- fn() }()
+	var stuckSince time.Time
+	lastSeq := int64(-1)
+	start := time.Now()
+	for {
+		select {
+		case err := <-done:
+			return err
+		case <-time.After(300 * time.Millisecond):
+		}
+		rd, _ := lw.reading.Load().(string)
+		seq := lw.readSeq.Load()
+		if rd == "" || seq != lastSeq {
+			lastSeq, stuckSince = seq, time.Now()
+		}
+		if rd != "" && time.Since(stuckSince) > 6*time.Second {
+			buf := make([]byte, 2<<20)
+			buf = buf[:runtime.Stack(buf, true)]
+			for _, g := range strings.Split(string(buf), "\n\n") {
+				if strings.Contains(g, "failureNotifier") && strings.Contains(g, "RWMutex).RLock") && strings.Contains(g, "setFailure") {
+					lw.count("panics_raised", 0)
+					lw.checkHard("lifecycle-hang", lw.spec.Kind+"+notify-reads", lw.spec.Value,
+						fmt.Sprintf("%s does not return after the %s routine panicked: the failure-update notify function (SetFailureUpdateNotifyFunc), run from within Module.setFailure, is blocked reading the state of module %q and makes no progress", call, lw.phase, rd),
+						map[string]any{"blocked_goroutine": trunc(g, 1500)})
+					lw.finish()
+				}
+			}
+		}
+		if time.Since(start) > 90*time.Second {
+			lw.undecided("lifecycle-hang", lw.spec.Kind, lw.spec.Value, call+" did not return within 90 s")
+			lw.finish()
+		}
+	}
 }
